@@ -46,12 +46,14 @@ class Sym:
             return '%s(%r)' % (self.op, self.args[0])
         return '%s%r' % (self.op, self.args)
 
+    _NOTYPE = ('member', 'index', 'deref', 'unk', 'addr', 'call')
+
     def __eq__(self, other):
         return isinstance(other, Sym) and self.op == other.op and self.args == other.args \
-            and self.ctype == other.ctype
+            and (self.ctype == other.ctype or self.op in Sym._NOTYPE)
 
     def __hash__(self):
-        return hash((self.op, self.args, self.ctype))
+        return hash((self.op, self.args, '' if self.op in Sym._NOTYPE else self.ctype))
 
 
 def unk(name, ctype=''):
